@@ -759,7 +759,7 @@ func c04Expect(g2 bool, in []byte) string {
 func TestVerif_C04_DecompressTotal(t *testing.T) {
 	r := verifkit.Start(t, "C04", "decompress_total")
 	defer r.Finish()
-	r.SetRule("32-byte (G1) and 64-byte (G2) strings by class: uniform; x<p on the curve / off the curve (chosen with the monitor's own Legendre/norm test); x>=p; encodings of generated points with the parity bit flipped; fixed small values incl. all-zero; G2 x with x^3+b' in the base field. Each call must return within 20 s (a non-returning call is sampled twice in the goroutine dump; the class is then no longer fed) with (valid point, nil) or an error; a returned point must re-compress to the input. non-trivial = the input is not the compression of a generated point (all classes here)")
+	r.SetRule("32-byte (G1) and 64-byte (G2) strings by class: uniform; x<p on the curve / off the curve (chosen with the monitor's own Legendre/norm test); x>=p; encodings of generated points with the parity bit flipped; fixed small values incl. all-zero; G2 x with x^3+b' in the base field. Each call must return within 20 s (a non-returning call is sampled twice in the goroutine dump; inputs with the same kind of x-coordinate are then no longer fed) with (valid point, nil) or an error; a returned point must re-compress to the input. non-trivial = the input is not the compression of a generated point (all classes here)")
 	r.Assume("bn256.Unmarshal decides group membership of a returned point; the monitor's big.Int arithmetic decides whether an x-coordinate is on the curve")
 	classes := c04Classes(r)
 	var maxDurNs int64
@@ -776,6 +776,21 @@ func TestVerif_C04_DecompressTotal(t *testing.T) {
 		}
 	}
 	var sampled int32
+	type kind struct {
+		hung int32
+		gate chan struct{}
+	}
+	kinds := map[string]*kind{}
+	kindOf := func(name string) *kind {
+		mu.Lock()
+		defer mu.Unlock()
+		k := kinds[name]
+		if k == nil {
+			k = &kind{gate: make(chan struct{}, 2)}
+			kinds[name] = k
+		}
+		return k
+	}
 	verifkit.Parallel(len(jobs), len(jobs), func(ji int) {
 		c, shard := jobs[ji].c, jobs[ji].shard
 		grp := "G1"
@@ -783,15 +798,32 @@ func TestVerif_C04_DecompressTotal(t *testing.T) {
 			grp = "G2"
 		}
 		for i := shard; i < c.n; i += c.shards {
-			if atomic.LoadInt32(&c.hung) > 0 {
-				mu.Lock()
-				outcomes[c.name+":skipped-after-hang"]++
-				mu.Unlock()
-				continue
-			}
 			in := c.gen(r.SubRand("dec/"+c.name, i), i)
 			desc := fmt.Sprintf("decompress%s class=%s in=%s", grp, c.name, verifkit.Hex(in))
 			exp := c04Expect(c.g2, in)
+			// A hang leaves a spinning goroutine behind. To bound their
+			// number, 64-byte inputs of one kind (the monitor's
+			// classification of x) go through a 2-slot gate, and a kind in
+			// which a call hung is no longer fed. This only schedules and
+			// skips calls; it is not part of any verdict.
+			hk := kindOf(grp + "/" + exp)
+			skip := func() {
+				mu.Lock()
+				outcomes[c.name+":skipped-after-hang"]++
+				mu.Unlock()
+			}
+			if atomic.LoadInt32(&hk.hung) > 0 {
+				skip()
+				continue
+			}
+			if c.g2 {
+				hk.gate <- struct{}{}
+				if atomic.LoadInt32(&hk.hung) > 0 {
+					<-hk.gate
+					skip()
+					continue
+				}
+			}
 			var m []byte
 			var isNil bool
 			var err error
@@ -818,12 +850,18 @@ func TestVerif_C04_DecompressTotal(t *testing.T) {
 					}
 				}
 			})
+			if !res.returned {
+				atomic.AddInt32(&c.hung, 1)
+				atomic.AddInt32(&hk.hung, 1)
+			}
+			if c.g2 {
+				<-hk.gate
+			}
 			r.Case(desc, true)
 			out := ""
 			switch {
 			case !res.returned:
 				out = "hang"
-				atomic.AddInt32(&c.hung, 1)
 				r.Violation("decompress"+grp+":hang",
 					fmt.Sprintf("call has not returned after %v (returning calls take milliseconds); goroutine sampled in %s and, 1 s later, in %s; monitor's classification of the x-coordinate: %s", c04HangAfter, res.frame1, res.frame2, exp),
 					desc, map[string]string{"class": c.name, "frame_at_20s": res.frame1, "frame_at_21s": res.frame2, "x_classification": exp})
